@@ -1,6 +1,8 @@
 import PQ.Model.Writer
 import PQ.Model.Reader
 import PQ.Model.Spec
+import PQ.Model.SpecWriter
+import PQ.Model.Snappy
 /-!
 # Line-protocol text ↔ model values (driver glue; not part of any theorem)
 -/
@@ -199,6 +201,58 @@ def rleClasses (cs : List Char) : String :=
 
 def classifyPrefixes (cols : List Col) (dc : Decomp) (file : Bytes) : String :=
   rleClasses ((List.range file.length).map fun n => classifyRead cols dc (file.take n))
+
+/-- a stream of pseudo-random choices from a seed (64-bit LCG, high bits) -/
+def lcgChoices (seed : Nat) (n : Nat) : Choices :=
+  let rec go : Nat → Nat → List Nat → List Nat
+    | 0, _, acc => acc.reverse
+    | k+1, s, acc => let s' := (s * 6364136223846793005 + 1442695040888963407) % 2^64; go k s' ((s' / 2^33) :: acc)
+  go n (seed + 1) []
+
+def parseMutation (s : String) : Option (Option MutAt) :=
+  if s = "-" then some none else
+  match s.splitOn "," with
+  | [rg, col, page, kind] =>
+    match rg.toNat?, col.toNat?, page.toNat? with
+    | some rg, some col, some page =>
+      let m : Option Mutation := match kind.splitOn ":" with
+        | ["dict"] => some .dictPage
+        | ["index"] => some .indexPage
+        | ["v2"] => some .v2Page
+        | ["valenc", e] => e.toNat?.map .valueEncoding
+        | ["defenc", e] => e.toNat?.map .defEncoding
+        | ["repenc", e] => e.toNat?.map .repEncoding
+        | ["codec", e] => e.toNat?.map .codec
+        | _ => none
+      m.map fun m => some { rg := rg, col := col, page := page, m := m }
+    | _, _, _ => none
+  | _ => none
+
+/-- flags: `s` statistics, `e` extras, `p<n>` padding value -/
+def parseSWCfg (cols : List Col) (codecs flags : String) : Option SWCfg :=
+  match (codecs.splitOn ",").mapM String.toNat? with
+  | none => none
+  | some cds =>
+    let padv := match (flags.splitOn "p") with
+      | [_, n] => n.toNat?.getD 0
+      | _ => 0
+    some { cols := cols, codecs := cds, withStats := flags.contains 's', withExtras := flags.contains 'e', padv := padv }
+
+def parseRowGroups (cols : List Col) (s : String) : Option (List (List Rec)) :=
+  if s = "-" then some [] else
+  (s.splitOn "/").mapM fun g => if g = "" then some [] else (g.splitOn ";").mapM (parseRec cols)
+
+/-- codec graph keyed by codec and payload: `<codec>:<payload>=<compressed>` -/
+def parseCompress (tab : String) : Nat → Bytes → Bytes :=
+  let entries : List ((Nat × Bytes) × Bytes) :=
+    if tab = "-" then [] else
+    (tab.splitOn ",").filterMap fun kv =>
+      match kv.splitOn "=" with
+      | [k, v] => (match k.splitOn ":" with
+        | [c, p] => c.toNat?.map fun c => ((c, unhex p), unhex v)
+        | _ => none)
+      | _ => none
+  fun c b => (entries.lookup (c, b)).getD [0xde, 0xad]
 
 def transpose (n : Nat) (colsRecs : List (List String)) : List String :=
   (List.range n).map fun i => "|".intercalate (colsRecs.map fun rs => rs.getD i "?")
